@@ -272,6 +272,13 @@ impl<'a> Tr<'a> {
                     _ => Err(unsupported(at, &format!("`{}::from` on {}", tname, v.ty.show()))),
                 };
             }
+            if fname == "try_from" && args.len() == 1 {
+                let v = self.pure(args[0], env, None)?;
+                return match v.ty {
+                    Ty::Int(Some(_)) => Ok(Val { s: format!("(Casts.try_from_range {} {} {})", lit(t.min_val()), lit(t.max_val()), v.s), ty: Ty::Result(Box::new(Ty::int(t)), Box::new(Ty::Unit)) }),
+                    _ => Err(unsupported(at, &format!("`{}::try_from` on {}", tname, v.ty.show()))),
+                };
+            }
             if (fname == "from_le_bytes" || fname == "from_be_bytes") && args.len() == 1 && !t.signed() {
                 let n = (t.bits() / 8) as usize;
                 let want = Ty::Tuple(vec![Ty::int(IntTy::U8); n]);
@@ -458,6 +465,26 @@ impl<'a> Tr<'a> {
                     }
                 }
                 Err(unsupported(at, &format!("method `{}::{}`: {} (add it to functions.txt before its caller)", n, name, if fs.is_empty() { "not a configured function" } else { "ambiguous" })))
+            }
+            Ty::Param(g) if self.generic_tys.contains(&g) => {
+                // a method of a generic type parameter's bound: a function parameter of the translated definition
+                let key = format!("{}::{}", g, name);
+                match env.get(&key) {
+                    Some(v) => match &v.ty {
+                        Ty::Fn(ptys, rty) if ptys.len() == args.len() + 1 => {
+                            join(&recv.ty, &ptys[0]).map_err(|m| unsupported(at, &m))?;
+                            let mut a = vec![recv.s.clone()];
+                            for (x, pt) in args.iter().zip(ptys.iter().skip(1)) {
+                                let av = self.pure(x, env, Some(pt))?;
+                                join(&av.ty, pt).map_err(|m| unsupported(at, &m))?;
+                                a.push(av.s);
+                            }
+                            Ok(Val { s: app(&v.coq, &a), ty: (**rty).clone() })
+                        }
+                        _ => Err(unsupported(at, &format!("method `{}` of the generic parameter `{}`: its `assoc` type is not a function of {} arguments", name, g, args.len() + 1))),
+                    },
+                    None => Err(unsupported(at, &format!("method `{}` on a value of the generic type `{}` (give `assoc {} fn({},..)->..`)", name, g, name, g))),
+                }
             }
             Ty::Option(inner) => self.option_method(&name, recv, &inner, &args, env, hint, at),
             Ty::Slice(elem) => match (name.as_str(), args.len()) {
